@@ -58,6 +58,8 @@ LINES = [
     # characters that Python's str.splitlines() treats as line ends but the shell does not
     "printf 'left\rright' > made_{i}.cr", "echo 'page1\x0cpage2'", "echo 'a\x0bb' 'fs\x1cgs\x1drs\x1eend'",
     "echo 'nel\x85x ls\u2028x ps\u2029x'", "cat <<EOF\ncr\rlf in a here document\nEOF",
+    # more than 64 KiB of two-byte characters (lines of odd length, so that any block boundary falls inside a character)
+    "n=0; while [ $n -lt 4000 ]; do echo '\u00e9\u00e9\u00e9\u00e9\u00e9\u00e9\u00e9\u00e9\u00e9'; n=$((n+1)); done",
 ]
 FAILING = ["false", "exit 3", "test -f definitely_missing", "(exit 7)", "ls /nonexistent_dir_xyz 2>/dev/null", "[ 1 = 2 ]"]
 
